@@ -379,7 +379,7 @@ func genC05(g *mon.G) {
 	apis := []string{"blockstore", "blockstore-many", "storage-writable", "storage-rw", "deferred"}
 	dpads := []uint64{0, 0, 1, 7, 1413}
 	ipads := []uint64{0, 0, 1, 1024}
-	for i := 0; i < g.Pick(400, 6000); i++ {
+	for i := 0; i < g.Pick(1200, 20000); i++ {
 		cfg := lab.Cfg{V1: r.Intn(4) == 0, Sorted: r.Intn(2) == 0, StoreID: r.Intn(2) == 0, WholeCID: r.Intn(3) == 0, AllowDup: r.Intn(4) == 0}
 		if !cfg.V1 {
 			cfg.DataPad = dpads[r.Intn(len(dpads))]
@@ -387,7 +387,7 @@ func genC05(g *mon.G) {
 		}
 		g.Emit(c05Desc{Seed: r.Int63(), API: apis[i%len(apis)], Cfg: cfg})
 	}
-	for i := 0; i < g.Pick(24, 200); i++ {
+	for i := 0; i < g.Pick(32, 400); i++ {
 		g.Emit(c05Desc{Seed: r.Int63(), API: "cli"})
 	}
 }
